@@ -13,6 +13,9 @@ from . import AnalysisError
 from .astutil import dotted, body_of
 
 
+_AST_CACHE = {}   # sha1 of source -> parsed tree (trees are never mutated by the rules)
+
+
 class Module:
     def __init__(self, name, path, relpath, source):
         self.name = name            # 'nutils.evaluable'
@@ -20,12 +23,15 @@ class Module:
         self.path = path
         self.relpath = relpath      # 'src/nutils/evaluable.py'
         self.source = source
-        self.tree = ast.parse(source, filename=path)
+        self.sha1 = hashlib.sha1(source.encode()).hexdigest()
+        tree = _AST_CACHE.get(self.sha1)
+        if tree is None:
+            tree = _AST_CACHE[self.sha1] = ast.parse(source, filename=path)
+        self.tree = tree
         self.imports = {}           # local name -> dotted target
         self.classes = {}           # name -> ClassInfo (top level)
         self.functions = {}         # name -> FuncInfo (top level defs and name = lambda)
         self.assigns = {}           # name -> value node of the last top-level assignment
-        self.sha1 = hashlib.sha1(source.encode()).hexdigest()
 
     def __repr__(self):
         return f'<Module {self.name}>'
